@@ -244,9 +244,11 @@ def _case(arg):
                     res.violation(f"{tag}:{meth}:{form}:raised:{type(exc).__name__}",
                                   f"{tag}({pkey}).{meth}({form}) raised {type(exc).__name__}: {exc}", case)
             # integer-dtype arrays (what UniformInteger hands to these maps): same values as the float call
-            if not inverse and (lo, hi) != (-1.0, 1.0) and meth in ("transform", "deriv", "deriv2", "deriv3") and name != "HyperbolicRTransform":
+            if not inverse and meth in ("transform", "deriv", "deriv2", "deriv3") and name != "HyperbolicRTransform" \
+                    and ((lo, hi) != (-1.0, 1.0) or name == "LinearFiniteRTransform"):
                 res.count()
-                ints = np.arange(1, 5)
+                # (on [-1, 1] the whole numbers are the end points and the middle: only the linear map, which is finite there and has no integer powers)
+                ints = np.arange(1, 5) if (lo, hi) != (-1.0, 1.0) else np.array([-1, 0, 1])
                 keep_i = ints.copy()
                 try:
                     gi = np.asarray(call(meth, ints), dtype=float)
